@@ -13,10 +13,10 @@ PAIR = [dict(lit='std::make_pair( nullptr, 0u )', to='std::pair<void*, size_t>( 
         dict(lit='std::make_pair( reinterpret_cast<void*>( buf + sizeof( size_t )), size )', to='std::pair<void*, size_t>( reinterpret_cast<void*>( buf + sizeof( size_t )), size )', count=1, why='same')]
 stage = [
     # typed ring
-    frag('t_push', r'template <typename Q, typename CopyFunc>\s*bool push\( Q\* arr, size_t count, CopyFunc copy \)'),
-    frag('t_pop', r'template <typename Q, typename CopyFunc>\s*bool pop\( Q\* arr, size_t count, CopyFunc copy \)'),
-    frag('t_enqueue_with', r'template <typename Func>\s*bool enqueue_with\( Func f \)'),
-    frag('t_dequeue_with', r'template <typename Func>\s*bool dequeue_with\( Func f \)', rewrites=[
+    frag('t_push', r'template <typename Q, typename CopyFunc>\s*bool push\( Q\* \w+, size_t \w+, CopyFunc \w+ \)'),
+    frag('t_pop', r'template <typename Q, typename CopyFunc>\s*bool pop\( Q\* \w+, size_t \w+, CopyFunc \w+ \)'),
+    frag('t_enqueue_with', r'template <typename Func>\s*bool enqueue_with\( Func \w+ \)'),
+    frag('t_dequeue_with', r'template <typename Func>\s*bool dequeue_with\( Func \w+ \)', rewrites=[
         dict(lit='value_cleaner()( val );', to='{ value_cleaner vx_cleaner; vx_cleaner( val ); }', count=1, why='T()(x) temporary crashes the front end; named object of the same stateless functor')]),
     frag('t_front', r'value_type\* front\(\)'),
     frag('t_pop_front', r'bool pop_front\(\)', occurrence=0, rewrites=[
@@ -26,19 +26,19 @@ stage = [
     frag('t_size', r'size_t size\(\) const', occurrence=0),
     frag('t_capacity', r'size_t capacity\(\) const', occurrence=0, rewrites=[]),
     # WeakRingBuffer<void>
-    frag('v_back', r'void\* back\( size_t size \)'),
+    frag('v_back', r'void\* back\( size_t \w+ \)'),
     frag('v_push_back', r'void push_back\(\)'),
     frag('v_front', r'std::pair<void\*, size_t> front\(\)', rewrites=PAIR),
     frag('v_pop_front', r'bool pop_front\(\)', occurrence=1),
     frag('v_empty', r'bool empty\(\) const', occurrence=1),
     frag('v_size', r'size_t size\(\) const', occurrence=1),
     frag('v_capacity', r'size_t capacity\(\) const', occurrence=1, rewrites=[]),
-    frag('v_calc_real_size', r'static size_t calc_real_size\( size_t size \)', rewrites=[]),
-    frag('v_is_tail', r'static bool is_tail\( size_t size \)', rewrites=[]),
-    frag('v_make_tail', r'static size_t make_tail\( size_t size \)', rewrites=[]),
-    frag('v_untail', r'static size_t untail\( size_t size \)', rewrites=[]),
+    frag('v_calc_real_size', r'static size_t calc_real_size\( size_t \w+ \)', rewrites=[]),
+    frag('v_is_tail', r'static bool is_tail\( size_t \w+ \)', rewrites=[]),
+    frag('v_make_tail', r'static size_t make_tail\( size_t \w+ \)', rewrites=[]),
+    frag('v_untail', r'static size_t untail\( size_t \w+ \)', rewrites=[]),
     # buffer index arithmetic (cds/opt/buffer.h, initialized_dynamic_buffer::mod)
-    dict(kind='fragment', path='cds/opt/buffer.h', name='buf_mod', anchor=r'size_t mod\( size_t idx \)', occurrence=3),
+    dict(kind='fragment', path='cds/opt/buffer.h', name='buf_mod', anchor=r'size_t mod\( size_t \w+ \)', occurrence=3),
 ]
 for f in stage:
     if f['name'] in ('t_capacity', 'v_capacity', 'v_calc_real_size', 'v_is_tail', 'v_make_tail', 'v_untail'):
